@@ -40,8 +40,9 @@ pref = ("for a vial whose stored ice fraction, once positive, stays positive (th
 THEOREMS = [
     _T("tnuc_first_ice", "for a vial whose stored ice fraction, once positive, stays positive (the ONLY trajectory hypothesis, on the vial's own row; MONITORED on every run; follows from C06's conditional run invariant; sigma = 0 before the first ice is proved from the model): ice first appears at the reported nucleation time: t_nuc = t[first column with sigma>0]",
        "full-under-monitored-hypothesis"),
-    _T("tnuc_at_least_first_ice", "no trajectory hypothesis: if a stored column shows ice the vial HAS a recorded t_nuc and it is >= "
-       "t[first column with sigma>0] (equal when the vial keeps its ice; a nucleation record never moves backwards)"),
+    _T("tnuc_at_least_first_ice", "no trajectory hypothesis (needs only JumpPos, positive initial ice - a condition on the constants, "
+       "discharged for every physically valid set by hyp_jump_of_valid): if a stored column shows ice the vial HAS a recorded "
+       "t_nuc and it is >= t[first column with sigma>0] (equal when the vial keeps its ice; a record never moves backwards)"),
     _T("tnuc_grid", "nucleation times lie on the grid: t_nuc = (k+1)*dt for an executed step k"),
     _T("tnuc_last_step_counterexample", "REFUTED 'times lie within the process': a vial nucleating in the last step gets "
        "t_nuc = N*dt beyond the last grid time, no column shows its ice (K3)", "counterexample"),
@@ -67,8 +68,7 @@ THEOREMS = [
     _T("counter_states_beyond_end_counterexample", "refutation of the OLD code (before /repo 9deb6c8, K9): beyond the last stored "
        "time the old states path read column 0 (argmax of an all-False array); the repaired accessor reads the last column",
        "refutation-of-old-code"),
-    _T("counter_nuc_stats_beyond_end", "for admissible trajectories (sigma >= 0, ice once formed is kept - MONITORED on every run, "
-       "= C06's conditional run invariant): for t[N-1] < t < N*dt the states path counts the last stored column, the stats "
+    _T("counter_nuc_stats_beyond_end", pref + "for t[N-1] < t < N*dt the states path counts the last stored column, the stats "
        "path #{t_nuc <= t}, and the two agree", "full-under-monitored-hypothesis"),
     _T("counter_nuc_stats", "for a vial whose stored ice fraction, once positive, stays positive (the ONLY trajectory hypothesis, on the vial's own row; MONITORED on every run; follows from C06's conditional run invariant; sigma = 0 before the first ice is proved from the model): on-grid t: sigmaCounter(t,0) on the stats path = #{t_nuc <= t} = the states count",
        "full-under-monitored-hypothesis"),
@@ -79,7 +79,7 @@ THEOREMS = [
     _T("fromStates_Tnuc_eq_minus_update", "K2, what does hold, as an EQUATION: states value = recorded value - q/hl*dt with q the "
        "actual heat flow of the nucleating step (same hypothesis as above)", "partial"),
     _T("counter_sol_stats_is_duration_count", "K4, what does hold (1): the stats counter at the solidification threshold is "
-       "#{t_solidification <= t} (duration vs clock)"),
+       "#{t_solidification <= t} (duration vs clock) - unfolds one branch of the accessor model's definition", "by-construction"),
     _T("counter_sol_stats_overcounts", "K4, what does hold (2): that count is >= #{t_nucleation + t_solidification <= t}: it "
        "over-counts, never under-counts (no trajectory hypothesis)"),
     _T("tnuc_plus_tsol_is_crossing_time", pref + "t_nucleation + t_solidification = the grid time of the first column above the threshold",
@@ -587,7 +587,8 @@ def compare(case, impl, model):
 # the property itself, evaluated on the real run
 # ---------------------------------------------------------------------------
 def _adm_row(row):
-    """monitored hypothesis `Adm` of the C12 theorems on one stored trajectory: sigma never negative and a vial
+    """monitored trajectory condition on one stored row: sigma never negative (proved from the model before the first ice,
+    monitored after it) and - the hypothesis `Adm` of the C12 theorems - a vial
     that contains ice keeps some"""
     seen = False
     for x in row:
